@@ -17,6 +17,30 @@ pub uninterp spec fn table<V>(m: HashMap<String, V>) -> Map<Seq<char>, V>;
 #[verifier::external_body] pub fn t_get<'m, V>(m: &'m HashMap<String, V>, k: &str) -> (r: Option<&'m V>)
     ensures (match r { Some(v) => table(*m).contains_key(k@) && *v == table(*m)[k@], None => !table(*m).contains_key(k@) }) { unimplemented!() }
 #[verifier::external_body] pub fn t_insert<V>(m: &mut HashMap<String, V>, k: String, v: V) ensures table(*final(m)) == table(*old(m)).insert(k@, v) { unimplemented!() }
+// ---- serde_json (binding a JSON object): stand-ins; the conversion of a value is unit json's, known here as a relation ----------------
+#[verifier::external_body] pub struct JsonNumber { _p: u8 }
+#[verifier::external_body] pub struct JsonMap { _p: u8 }
+pub enum Value { Null, Bool(bool), Number(JsonNumber), String(String), Array(Vec<Value>), Object(JsonMap) }
+impl JsonMap { pub uninterp spec fn view(&self) -> Map<Seq<char>, Value>; }
+pub uninterp spec fn json_conv(v: Value, c: CelValue) -> bool;
+#[verifier::external_body] pub fn cel_from_json(v: Value) -> (r: CelValue) ensures json_conv(v, r) { unimplemented!() }
+/// serde_json::Map::into_iter, materialized: every entry exactly once
+pub open spec fn entries_of_obj(m: Map<Seq<char>, Value>, es: Seq<(String, Value)>) -> bool {
+    &&& forall|j: int| 0 <= j < es.len() ==> m.contains_key((#[trigger] es[j]).0@) && m[es[j].0@] == es[j].1
+    &&& forall|i: int, j: int| 0 <= i < j < es.len() ==> (#[trigger] es[i]).0@ != (#[trigger] es[j]).0@
+    &&& forall|k: Seq<char>| #[trigger] m.contains_key(k) ==> exists|j: int| 0 <= j < es.len() && (#[trigger] es[j]).0@ == k
+}
+#[verifier::external_body] pub fn json_entries(m: JsonMap) -> (r: Vec<(String, Value)>) ensures entries_of_obj(m@, r@) { unimplemented!() }
+/// `map.entry(k).or_insert_with(f)`: inserts f() only when the key is absent (std)
+#[verifier::external_body] pub fn t_entry_or_insert_with<V, F: FnOnce() -> V>(m: &mut HashMap<String, V>, k: String, f: F)
+    requires call_requires(f, ())
+    ensures table(*old(m)).contains_key(k@) ==> table(*final(m)) == table(*old(m)),
+        !table(*old(m)).contains_key(k@) ==> exists|v: V| call_ensures(f, (), v) && table(*final(m)) == table(*old(m)).insert(k@, v) { unimplemented!() }
+/// binding a JSON object: every entry binds or rebinds its name to the converted value, nothing else changes
+pub open spec fn json_bound(obj: Map<Seq<char>, Value>, before: Map<Seq<char>, CelValue>, after: Map<Seq<char>, CelValue>) -> bool {
+    &&& forall|k: Seq<char>| #[trigger] obj.contains_key(k) ==> after.contains_key(k) && json_conv(obj[k], after[k])
+    &&& forall|k: Seq<char>| !obj.contains_key(k) ==> (#[trigger] after.contains_key(k)) == before.contains_key(k) && (before.contains_key(k) ==> after[k] == before[k])
+}
 impl<'a> BindContext<'a> {
     pub closed spec fn vars(&self) -> Map<Seq<char>, CelValue> { table(self.params) }
     pub closed spec fn fns(&self) -> Map<Seq<char>, &'a RsCelFunction> { table(self.funcs) }
@@ -35,6 +59,7 @@ def build():
     U.extract(BC, 'struct BindContext')
     U.raw(C.DERIVED, 'assumed derived impls')
     U.raw(PRELUDE, 'tables')
+    U.extract(C.CE, 'impl CelError', fns={}, others='stub')
     MC = {'contains_key': ('t_contains', 'ref'), 'get': ('t_get', 'ref')}
     INS = lambda t, k, v: (f'self.{t}.insert({k}, {v});', f't_insert(&mut self.{t}, {k}, {v});', 'R2m: HashMap::insert -> trampoline over the abstract table (assumed: insert-or-replace)')
     P12 = ('C12', 'C01')
@@ -48,6 +73,29 @@ def build():
         'get_macro': A(ret='r', ensures=[('looks_in_the_macros_only', '(match r { Some(v) => self.mcs().contains_key(name@) && v == self.mcs()[name@], None => !self.mcs().contains_key(name@) })')], mcalls=MC, props=P12),
         'get_type': A(ret='r', ensures=[('looks_in_the_types_only', '(match r { Some(v) => self.tys().contains_key(name@) && *v == self.tys()[name@], None => !self.tys().contains_key(name@) })')], mcalls=MC, props=P12),
         'is_bound': A(ret='r', ensures=[('bound_as_variable_function_or_macro', 'r == (self.vars().contains_key(name@) || self.fns().contains_key(name@) || self.mcs().contains_key(name@))', ('C17', 'C12'))], mcalls=MC, props=('C17', 'C12', 'C01')),
-    }, skip=('new', 'for_compile', 'bind_params_from_json_obj', 'bind_param_proto_msg', 'add_type'))   # add_type: its `r#type` parameter crashes Verus (internal panic in the SMT encoder): not extracted
+        'bind_params_from_json_obj': A(ret='r', ensures=[
+            ('anything_but_an_object_is_rejected', f'!(values is Object) ==> r is Err && final(self).vars() == old(self).vars() && {keep("vars")}'),
+            ('every_entry_binds_or_rebinds_its_name_to_the_converted_value', f'values is Object ==> r is Ok && json_bound(values->Object_0@, old(self).vars(), final(self).vars()) && {keep("vars")}')],
+            rewrites=[('obj.into_iter()', 'json_entries(obj)', 'R2m: serde_json::Map::into_iter -> materialized entry list (assumed: every entry once)'),
+                      ('CelValue::from(value)', 'cel_from_json(value)', 'R1: `From<Value> for CelValue` (verified in unit json) -> trampoline known here by the relation json_conv'),
+                      ('self.params.insert(key,', 't_insert(&mut self.params, key,', 'R2m: HashMap::insert -> trampoline over the abstract table (assumed: insert-or-replace)'),
+                      ('self.params.entry(', 't_entry_or_insert_with(&mut self.params, ', 'R2m (if present): HashMap::entry(..).or_insert_with(..) -> one trampoline with the std behaviour (insert only when absent)'),
+                      (').or_insert_with(', ', ', 'the same chain')],
+            body_begin='let ghost v0 = self.vars();',
+            after={('stmt', 'let obj =', 0): 'let ghost om = obj@;'},
+            loops={0: dict(ghost='it', invariant=[
+                ('every_entry_once', 'entries_of_obj(om, it.seq())'),
+                ('entries_bound_so_far', 'forall|j: int| 0 <= j < it.index@ ==> self.vars().contains_key((#[trigger] it.seq()[j]).0@) && json_conv(it.seq()[j].1, self.vars()[it.seq()[j].0@])'),
+                ('other_names_untouched', 'forall|k: Seq<char>| (forall|j: int| 0 <= j < it.index@ ==> (#[trigger] it.seq()[j]).0@ != k) ==> (#[trigger] self.vars().contains_key(k)) == v0.contains_key(k) && (v0.contains_key(k) ==> self.vars()[k] == v0[k])'),
+                ('other_tables_untouched', f'{keep("vars").replace("final(self)", "self")}')],
+                pre='let ghost i0 = it.index@ as int; let ghost vb = self.vars(); proof { assert((key, value) == it.seq()[i0]); assert(forall|j: int| 0 <= j < i0 ==> (#[trigger] it.seq()[j]).0@ != it.seq()[i0].0@); }',
+                post='''proof {
+    assert(self.vars() == vb.insert(it.seq()[i0].0@, self.vars()[it.seq()[i0].0@]));
+    assert forall|j: int| 0 <= j < i0 + 1 implies self.vars().contains_key((#[trigger] it.seq()[j]).0@) && json_conv(it.seq()[j].1, self.vars()[it.seq()[j].0@]) by {
+        if j < i0 { assert(it.seq()[j].0@ != it.seq()[i0].0@); assert(vb.contains_key(it.seq()[j].0@)); }
+    }
+}''')},
+            props=P12),
+    }, skip=('new', 'for_compile', 'bind_param_proto_msg', 'add_type'))   # add_type: its `r#type` parameter crashes Verus (internal panic in the SMT encoder): not extracted
     U.raw(C.FOOTER, 'footer')
     return U
